@@ -896,7 +896,8 @@ package engine
 
 //@ func Atom.String
 //@   trusted
-//@   modifies nothing
+//@   pure
+//@   deterministic
 
 //@ func stream
 //@   trusted
@@ -1093,3 +1094,40 @@ package engine
 //@   nosafety
 //@   at-call CharList requires[under-chars] p.doubleQuotes == doubleQuotesChars
 //@   at-call CodeList requires[under-codes] p.doubleQuotes == doubleQuotesCodes
+
+//@ ---------------------------------------------------------------- relational built-ins, deterministic modes (C16)
+
+//@ func CharCode
+//@   property C16
+//@   nosafety
+//@   at-call Unify#1 requires[char-of-exactly-that-code] a2 is Atom && (a2 as Atom) == local(cd, Integer)
+//@   at-call Unify#2 requires[code-of-the-single-character] a2 is Integer && len(local(rs, []rune)) == 1 && (a2 as Integer) == local(rs, []rune)[0]
+
+//@ func AtomLength
+//@   property C16
+//@   nosafety
+//@   at-call Unify requires[length-in-characters] a1 == length && a2 is Integer && (a2 as Integer) == len(runes(Atom.String(local(a, Atom))))
+
+//@ func Succ
+//@   property C16
+//@   nosafety
+//@   bind r, aerr = add#1
+//@   at-call Unify#1 requires[predecessor] local(s, Integer) > 0 && a2 is Integer && (a2 as Integer) == local(s, Integer) - 1
+//@   at-call Unify#2 requires[successor] aerr == nil && a2 == r && r is Integer && (r as Integer) == local(x, Integer) + 1
+//@   at-call Unify#3 requires[successor] aerr == nil && a2 == r && r is Integer && (r as Integer) == local(x, Integer) + 1
+
+//@ func Between
+//@   property C16
+//@   nosafety
+//@   onk[value-within-bounds] low <= local(value, Integer) && local(value, Integer) <= high
+
+//@ func Between$1
+//@   property C16
+//@   nosafety
+//@   at-call Unify requires[yields-low] a1 == value && a2 is Integer && (a2 as Integer) == low
+
+//@ func Between$2
+//@   property C16
+//@   requires low < high
+//@   nosafety
+//@   at-call Between requires[continues-above-low] a1 is Integer && (a1 as Integer) == low + 1 && a2 == upper && a3 == value && a4 == k
